@@ -57,6 +57,23 @@ def apply_variant(v):
         return None
 
 
+def _one(args):
+    """(exit code or None when the variant does not apply, rules that fired) for one variant; runs in a worker process."""
+    pid, seed, v = args
+    from .core import run_property
+    tmp = apply_variant(v)
+    if tmp is None:
+        return None, []
+    try:
+        code, ctx, new, known = run_property(pid, "quick", seed, root=tmp, write=False, quiet=True)
+        rules = sorted({f.rule for f in new})
+    except Exception:
+        code, rules = 2, []
+    finally:
+        shutil.rmtree(tmp, ignore_errors=True)
+    return code, rules
+
+
 def run_for(pid, tier, seed):
     from .core import run_property
     t0 = time.time()
@@ -77,21 +94,27 @@ def run_for(pid, tier, seed):
         rnd.shuffle(refs)
         mine = muts[:2] + refs[:2]
     res = {"mutants_fired": [], "mutants_missed": [], "refactors_silent": [], "refactors_alarmed": [], "skipped": []}
-    for v in mine:
-        tmp = apply_variant(v)
-        if tmp is None:
+    jobs = 1
+    if tier == "thorough":
+        try:
+            jobs = max(1, int(os.environ.get("VERIF_JOBS", "12")))
+        except ValueError:
+            jobs = 12
+    work = [(pid, seed, v) for v in mine]
+    if jobs > 1 and len(work) > 1:
+        import multiprocessing
+        with multiprocessing.get_context("fork").Pool(min(jobs, len(work))) as pool:
+            outs = pool.map(_one, work, chunksize=1)
+    else:
+        outs = [_one(w) for w in work]
+    for v, (code, rules) in zip(mine, outs):
+        if code is None:
             res["skipped"].append(v["id"])
             continue
-        try:
-            code, ctx, new, known = run_property(pid, "quick", seed, root=tmp, write=False, quiet=True)
-        except Exception as e:
-            code, new = 2, []
-        finally:
-            shutil.rmtree(tmp, ignore_errors=True)
         if v["kind"] == "mutant":
             expected = pid in v["meta"].get("detected_by", {})
             if code == 1:
-                res["mutants_fired"].append({"id": v["id"], "rules": sorted({f.rule for f in new})})
+                res["mutants_fired"].append({"id": v["id"], "rules": rules})
             elif expected:
                 res["mutants_missed"].append({"id": v["id"], "exit": code})
             else:
@@ -100,7 +123,7 @@ def run_for(pid, tier, seed):
             if code == 0:
                 res["refactors_silent"].append(v["id"])
             else:
-                res["refactors_alarmed"].append({"id": v["id"], "exit": code, "rules": sorted({f.rule for f in new})})
+                res["refactors_alarmed"].append({"id": v["id"], "exit": code, "rules": rules})
     res["wall_s"] = round(time.time() - t0, 2)
     res["variants_run"] = len(mine)
     # merge into the evidence file
